@@ -201,6 +201,8 @@ def flip(b: bytes, bit: int) -> bytes:
 
 def signed_case(ctx, rng, f, allowed, presence, j):
     """One (flag, allowed) cell with a real signature + the battery."""
+    if j % 4 == 2:
+        failed_run_first(ctx, rng, f)
     fields = mk_fields(rng, presence)
     seed = bytes(rng.getrandbits(8) for _ in range(32))
     pk = sigmsg.pubkey(seed)
@@ -352,7 +354,27 @@ def judge_under_extension(ctx, case, seed, pk, fields, f, allowed):
         tapescript.reset_signature_extensions()
 
 
+def failed_run_first(ctx, rng, f):
+    """a run of this PROCESS in which building the message for flag f fails
+    (the covered fields exceed the item limit - an ordinary script error):
+    nothing of it may reach the runs that follow"""
+    cov = [i for i in range(1, 9) if not (f >> (i - 1)) & 1]
+    if not cov:
+        return
+    big = {f'sigfield{rng.choice(cov)}': bytes(9000)}
+    seed = bytes(rng.getrandbits(8) for _ in range(32))
+    for prog in (isa.push1(seed) + isa.op('SIGN') + bytes([f]),
+                 isa.op('GET_MESSAGE') + bytes([f]),
+                 isa.push1(bytes(64) + (bytes([f]) if f else b''))
+                 + isa.push1(sigmsg.pubkey(seed)) + isa.op('CHECK_SIG')
+                 + bytes([f])):
+        run(prog, dict(big))
+    ctx.count('failed_runs_before_a_case')
+
+
 def judge_sign(ctx, rng, f, presence, j):
+    if j % 4 == 2:
+        failed_run_first(ctx, rng, f)
     fields = mk_fields(rng, presence)
     seed = bytes(rng.getrandbits(8) for _ in range(32))
     pk = sigmsg.pubkey(seed)
